@@ -9,7 +9,7 @@ use std::{
     cell::RefCell,
     collections::BTreeSet,
     fs,
-    io::{self, BufWriter},
+    io::{self, BufWriter, Write},
     path::Path,
     sync::Arc,
     time,
@@ -553,6 +553,10 @@ impl Writer {
                 // switch to new merge data file if we exceed the max file size
                 merge_pos += nbytes;
                 if merge_pos > self.ctx.conf.max_file_size {
+                    // persist the finished merge files, the stale files are going to be removed
+                    merge_datafile_writer.flush()?;
+                    merge_datafile_writer.get_ref().sync_all()?;
+                    merge_hintfile_writer.sync()?;
                     merge_fileid += 1;
                     merge_pos = 0;
                     merge_datafile_writer =
@@ -562,6 +566,12 @@ impl Writer {
                     debug!(merge_fileid, "new merge file");
                 }
             }
+
+            // persist the merged data before removing the stale files, otherwise a power loss
+            // could take away the only durable copy of a value
+            merge_datafile_writer.flush()?;
+            merge_datafile_writer.get_ref().sync_all()?;
+            merge_hintfile_writer.sync()?;
         }
 
         // Remove stale files from system and storage statistics
